@@ -59,6 +59,11 @@ def payload():
     )
 
 
+def big_payload():
+    """payloads whose rendering is longer than any plausible size threshold (4 KiB .. 70 KiB)"""
+    return st.builds(lambda s, n: [{"k": "text", "s": (s or "x") * n}], st.text(alphabet="ab<", min_size=1, max_size=3), st.sampled_from([1500, 5000, 24000]))
+
+
 def battery_case():
     headc = st.builds(lambda p: {"k": "headc", "kids": p}, payload())
     text = st.builds(lambda s: {"k": "text", "s": s}, gen.safe_text(0, 4))
@@ -82,7 +87,8 @@ def battery_case():
         {
             "roots": st.lists(st.one_of(tag(n), tag(n), leaf), min_size=1, max_size=4),
             "kw": st.lists(st.tuples(st.sampled_from(["lang", "class_", "data_z"]), gen.safe_text(1, 3)).map(list), max_size=2, unique_by=lambda p: p[0]),
-            "payloads": st.lists(payload(), max_size=2),
+            "payloads": st.lists(st.one_of(payload(), payload(), big_payload()), max_size=2),
+            "html_root": st.booleans(),
             "ops": st.lists(
                 st.one_of(
                     st.tuples(st.just("add_class"), st.integers(0, 5), st.sampled_from(["a", "b", "c d", "e"]), st.booleans()).map(list),
@@ -161,6 +167,8 @@ def body_replay(case, note):
     outs = run_children([case["battery_case"]] * 3, list(seeds) + [7, 11, 13], "replay")
     ref = outs[0][1]
     for hs, o in outs:
+        r0 = o["results"]["0"]
+        check(r0.get("doc") == r0.get("doc_again") and r0.get("page") == r0.get("page_again"), "rendering the same document object twice in one process gave different markup")
         check(not o["mismatches"], f"same case rendered twice in one process (PYTHONHASHSEED={hs}) gave different results")
         check(o["results"]["0"] == ref["results"]["0"], f"case differs between PYTHONHASHSEED={outs[0][0]} and {hs}", ref["results"]["0"], o["results"]["0"])
     note(True)
@@ -175,6 +183,12 @@ def run_processes(ctx):
     outs = run_children(battery, seeds, str(ctx.seed))
     ref_hs, ref = outs[0]
     for hs, o in outs:
+        for i in range(len(battery)):
+            r = o["results"][str(i)]
+            for a_, b_ in (("doc", "doc_again"), ("page", "page_again")):
+                if a_ in r and r[a_] != r.get(b_):
+                    ctx.extra["case"] = {"battery_case": battery[i], "hashseed": hs, "what": f"{a_}: the same document object rendered twice"}
+                    raise Violation(f"case {i}: rendering the same document object twice in one process gave different markup ({a_})")
         if o["mismatches"]:
             i = o["mismatches"][0]
             ctx.extra["case"] = {"battery_case": battery[i], "hashseed": hs, "what": "same case rendered twice in one process"}
@@ -220,8 +234,23 @@ def confuse(p):
     return out
 
 
+def twin(p, mode):
+    """q = p with its first text leaf turned into trusted markup: 'raw' keeps the characters (renders differently when
+    they contain & < >), 'escaped' uses the escaped characters (renders identically)"""
+    out, done = [], False
+    for n in p:
+        if not done and n["k"] == "text":
+            s = n["s"]
+            if mode == "escaped":
+                s = s.replace("&", "&amp;").replace("<", "&lt;").replace(">", "&gt;")
+            n = {"k": "html", "s": s}
+            done = True
+        out.append(n)
+    return out
+
+
 def names_case():
-    return st.fixed_dictionaries({"p": payload(), "q": payload(), "same": st.booleans(), "confuse": st.booleans()})
+    return st.fixed_dictionaries({"p": st.one_of(payload(), payload(), big_payload()), "q": payload(), "same": st.booleans(), "confuse": st.sampled_from([None, None, "swap", "swap", "raw", "escaped"])})
 
 
 def body_names(case, note):
@@ -230,8 +259,10 @@ def body_names(case, note):
     p, q = case["p"], case["q"]
     if case["same"]:
         q = p
-    elif case.get("confuse"):
+    elif case.get("confuse") == "swap":
         q = confuse(p)
+    elif case.get("confuse") in ("raw", "escaped"):
+        q = twin(p, case["confuse"])
     rp = h.TagList(*[build(x) for x in p]).get_html_string()
     rq = h.TagList(*[build(x) for x in q]).get_html_string()
     hp, hq = h.head_content(*[build(x) for x in p]), h.head_content(*[build(x) for x in q])
@@ -248,7 +279,7 @@ def body_names(case, note):
 
     confus = rp != rq and (unicodedata.normalize("NFKC", rp).casefold() == unicodedata.normalize("NFKC", rq).casefold())
     close = rp != rq and (len(rp) == len(rq) or sorted(rp) == sorted(rq) or confus)
-    note(differently_built or close, "equal-content-built-differently" if differently_built else "", "anagram-or-same-length" if close else "", "identical" if core.canon(p) == core.canon(q) else "", "unicode-confusable" if confus else "")
+    note(differently_built or close, "equal-content-built-differently" if differently_built else "", "anagram-or-same-length" if close else "", "identical" if core.canon(p) == core.canon(q) else "", "unicode-confusable" if confus else "", "text-vs-markup-twin:" + case["confuse"] if case.get("confuse") in ("raw", "escaped") and not case["same"] else "", "large-payload" if len(rp) > 4096 else "")
 
 
 RULE = (
@@ -260,5 +291,5 @@ RULE = (
 
 CLAUSES = [
     Clause("processes", body_replay, source="custom", custom=run_processes, rule="see RULE"),
-    Clause("names", body_names, strategy=names_case, quick=1500, thorough=20000, shards_quick=2, required=("equal-content-built-differently", "anagram-or-same-length", "unicode-confusable"), rule="see RULE"),
+    Clause("names", body_names, strategy=names_case, quick=1500, thorough=20000, shards_quick=2, required=("equal-content-built-differently", "anagram-or-same-length", "unicode-confusable", "text-vs-markup-twin:raw", "text-vs-markup-twin:escaped", "large-payload"), rule="see RULE"),
 ]
